@@ -52,18 +52,21 @@ Definition sch_canon (s : schema) : schema :=
 Definition sch_equiv (a b : schema) : Prop := sch_canon a = sch_canon b.
 
 (* ---------------------------------------------------------------- the class of D10 *)
-Fixpoint c12_subseq (a b : list N) : bool :=
-  match a, b with
-  | [], _ => true
-  | _ :: _, [] => false
-  | x :: a', y :: b' => if x =? y then c12_subseq a' b' else c12_subseq a b'
+(* position of a component in the re-built list: the definition's components come first, then those of
+   the extensions in the order `disc` in which `extensions()` discovers them *)
+Definition c12_rank (disc : list N) (o : origin) : N :=
+  match o with ODef => 0 | OExt i => 1 + cn_index i disc end.
+
+Fixpoint c12_nondecr (l : list N) : bool :=
+  match l with
+  | a :: (b :: _) as r => (a <=? b) && c12_nondecr r
+  | _ => true
   end.
 
+(* the list is already in the order in which it will be re-built *)
 Definition c12_list_ok {A : Type} (disc : list N) (l : list (comp A)) : bool :=
-  c12_subseq (ta_ext_ids (ta_origins l)) disc.
+  c12_nondecr (map (fun c => c12_rank disc (c_origin c)) l).
 
-(* in every component list of the type the extensions occur in the order in which `extensions()`
-   discovers them *)
 Definition c12_type_ok (t : ext_type) : bool :=
   let disc := ta_type_extensions t in
   match t with
@@ -75,6 +78,13 @@ Definition c12_type_ok (t : ext_type) : bool :=
   | EInput _ _ dirs fields _ => c12_list_ok disc dirs && c12_list_ok disc fields
   end.
 
-(* Known_C12: some type has two extensions that contribute to a common component list and that are
-   discovered (directives, then interfaces, then fields / values / members) in the opposite order *)
-Definition c12_known (s : schema) : bool := negb (forallb c12_type_ok (sch_types s)).
+Definition c12_sd_ok (sd : schema_def) : bool := c12_list_ok (ta_sd_extensions sd) (sd_dirs sd).
+
+(* Known_C12: some component list is not in the order [components of the definition; components of the
+   extensions, grouped, in discovery order].  For a schema returned by the builder (every list = the
+   definition's components followed by one block per applied extension, in application order) this says:
+   two extensions that contribute to a common component list are discovered (directives, then
+   interfaces, then fields / values / members) in the opposite order — the defect D10.  (The directive
+   list of the schema definition is discovered first, so for built schemas c12_sd_ok always holds.) *)
+Definition c12_known (s : schema) : bool :=
+  negb (forallb c12_type_ok (sch_types s) && c12_sd_ok (sch_def s)).
